@@ -199,7 +199,7 @@ func execC03(a []string) string {
 		return t.sm(a[1], a[9], parseBig(a[10]))
 	}
 	switch a[0] {
-	case "curve", "sm", "smx", "joint", "jointbig", "jointx", "batch", "batchpow":
+	case "curve", "sm", "smx", "joint", "jointbig", "jointx", "batch", "batchpow", "batchwin":
 	default:
 		return "bad-op"
 	}
@@ -273,6 +273,8 @@ func execC03(a []string) string {
 		return g.batch(rest[1], ss)
 	case "batchpow":
 		return g.batchPow(rest)
+	case "batchwin":
+		return g.batchWin(rest)
 	}
 	return "bad-op"
 }
@@ -953,6 +955,70 @@ func genC03(g *gen) {
 					emitBP(3<<13+1+g.rng.intn(1<<13), 2)
 				}
 			}
+			// window-boundary batches: for EVERY window size the cost model can select for this scalar size (in particular the
+			// sizes that divide it: no smaller last window), a batch of a length that selects it, scalars given by their windows of
+			// that width (boundary values in every window, carry into the top window, top window up to that of r − 1); answers
+			// for a run of consecutive entries (9: every top value, carry and no carry alternating; 18 where the window size divides
+			// the scalar size: every top value × carry / no carry; thorough 54: × the six values of the window below) + first + last
+			{
+				bits := uint64(gr.r.BitLen())
+				max, extra, nm := 1<<13, 0, 2
+				if g.thorough() {
+					max, extra, nm = 1<<16, 4, 8
+				}
+				for ri, rg := range c03WindowRanges(bits, max) {
+					lo, hi, c := rg[0], rg[1], rg[2]
+					run := 9
+					if bits%uint64(c) == 0 {
+						run = 18
+					}
+					if g.thorough() {
+						run = 54
+					}
+					Ns := []int{lo + g.rng.intn(min(hi-lo, 255)+1)}
+					if g.thorough() {
+						Ns = []int{lo, lo + g.rng.intn(hi-lo+1)}
+						if hi < max {
+							Ns = append(Ns, hi)
+						}
+					}
+					for ni, N := range Ns {
+						P := pts[1]
+						switch (ri + ni) % 4 {
+						case 1:
+							P = prand
+						case 3:
+							P = pts[2]
+						}
+						if ri == 2 && ni == 0 {
+							P = pts[0]
+						}
+						var idx []string
+						add := func(i int) { idx = append(idx, hexBig(big.NewInt(int64(i)))) }
+						if N <= run+2 {
+							for i := 0; i < N; i++ {
+								add(i)
+							}
+						} else {
+							b := g.rng.intn(N - run + 1)
+							for i := 0; i < run; i++ {
+								add(b + i)
+							}
+							add(0)
+							add(N - 1)
+							for i := 0; i < extra; i++ {
+								add(g.rng.intn(N))
+							}
+						}
+						is := "-"
+						if len(idx) > 0 {
+							is = strings.Join(idx, ",")
+						}
+						g.emit("C03 batchwin - %s %s %s %s %s %s %s %s", gr.params(), P.e, P.tok, hexBig(big.NewInt(int64(N))),
+							hexBig(big.NewInt(int64(c))), hexBig(new(big.Int).SetUint64(g.rng.u64())), hexBig(big.NewInt(int64(nm))), is)
+					}
+				}
+			}
 			for li, L := range lens {
 				P := pts[(li+1)%len(pts)]
 				var toks []string
@@ -1137,6 +1203,13 @@ func genC03(g *gen) {
 		g.emit("C03 joint gen %s 5 %s 2 %s 2 3", gr.params(), P5, G)                 // Q ≠ [e2]G
 		g.emit("C03 batch - %s 5 %s 1,%s", gr.params(), P5, hexBig(gr.r))            // scalar not reduced
 		g.emit("C03 batch - %s 5 %s", gr.params(), P5)                               // arity
+		if gr.batch != nil {
+			g.emit("C03 batchwin - %s 5 %s 9 1 7 2 0", gr.params(), P5)   // window width out of 2..16
+			g.emit("C03 batchwin - %s 5 %s 9 8 7 2 9", gr.params(), P5)   // sampled index beyond the batch
+			g.emit("C03 batchwin - %s 4 %s 9 8 7 2 0", gr.params(), P5)   // P ≠ [e]G
+			g.emit("C03 batchwin - %s 5 %s 9 8 7 2", gr.params(), P5)     // arity
+			g.emit("C03 batchwin - %s 5 %s 9 8 7 9 0,8", gr.params(), P5) // more hand-model entries asked than sampled
+		}
 		g.emit("C03 sm aff %s %s %s 5 inf 7", gr.params(), gr.w, gr.lam)             // P = O but e = 5
 		g.emit("C03 alias rq sm aff %s %s %s 5 %s 7", gr.params(), gr.w, gr.lam, P5) // pattern the op does not admit
 		g.emit("C03 alias zz sm aff %s %s %s 5 %s 7", gr.params(), gr.w, gr.lam, P5) // unknown pattern
